@@ -19,6 +19,7 @@ import (
 	"context"
 	"fmt"
 	"runtime"
+	"strings"
 	"sync"
 	"time"
 
@@ -100,7 +101,7 @@ func record(c *vkit.Case, x ran) bool {
 	r.Count("probe events", "callback invocations", int(x.s.cbCalls.Load()))
 	r.Count("probe events", "streams watched", np)
 	r.Max("streams per scenario", "max", np)
-	single := x.m.Family != "pipeline"
+	single := x.m.Family != "pipeline" && !strings.HasPrefix(x.m.Owner, "WithPeek[api")
 	if single {
 		r.Count("scenarios by owner configuration", x.m.Owner, 1)
 	}
@@ -324,6 +325,8 @@ func sequential(r *vkit.Report) {
 		ps := drawPipeline(c.Rand, st, false, maxN)
 		seqAllStops(c, pipeMeta(st, ps), func(s *scen) built { return buildPipeline(s, st, ps) })
 	})
+
+	peekAPI(r, workers)
 
 	floors(r, os, false)
 	r.Floor("regression scenarios for D3 (stream.One closes)", r.Table("regression scenarios", "D3 stream.One closes"), int64(len(d3)))
